@@ -3,6 +3,7 @@ import Gopki.Model.Db
 import Gopki.Spec.X509
 import Gopki.Spec.Subject
 import Gopki.Model.Hash
+import Gopki.Spec.Ext
 /-! `pki`: one sign run over a generated directory, replayed on the model.  For every generated
     certificate the model's DER (with the observed oracle values: fresh key, drawn serial, "now",
     signature bits) must equal the bytes gopki wrote, and the specification clauses of C01–C07 are
@@ -212,6 +213,15 @@ def specOnCert (der : Bytes) (eff : V1.CertificateContent) (cfgSubject : String)
         ("C01: signature does not verify under the issuer's current certificate key",
           eff.manipulations.signatureValue.isSome || eff.manipulations.signatureAlgorithm.isSome ||
           (match issuerKeyId with | some k => verifiesUnder.contains k | none => false)),
+        ((if hasManip then "C19" else "C01") ++ ": a key identifier requested as `hash` is not SHA-1 of the (issuer's / subject's) public key bits in the certificate",
+          let issuerBits : Option Bytes := if self then some (c.tbs.spkiBits.drop 1)
+            else (issuerFinalDer.bind X509.decodeDer).bind fun it => (X509.decCertificate it).map (·.tbs.spkiBits.drop 1)
+          (eff.extensions.zip c.tbs.extensions).all fun (cfgE, ce) =>
+            if !cfgE.raw.isEmpty then true else
+            match cfgE.content with
+            | .authKeyId "hash" => (match issuerBits with | some b => SpecExt.decAki ce.value == some (some (Sha1.sum b)) | none => true)
+            | .subjectKeyIdentifier "hash" => SpecExt.decSki ce.value == some (Sha1.sum (c.tbs.spkiBits.drop 1))
+            | _ => true),
         ("C06: extension OIDs, order or critical flags differ from the effective configuration",
           c.tbs.extensions.map (fun e => (e.oid, e.critical)) == eff.extensions.map (fun e => (e.oid.getD [], e.critical)))
       ]
@@ -249,6 +259,7 @@ structure RunVerdict where
   detail : Json := Json.null
   planned : List String := []
   ok : Bool := false            -- the run completed successfully
+  allClauses : List String := []   -- every failing statement clause of this run (the view picks its families)
 
 def b64DecodeStr (s : String) : Option Bytes := V1.goB64Decode s.toUTF8.toList
 
@@ -470,6 +481,7 @@ def replayRun (tz : Int) (files : List FileJ) (strat : Nat) (fault : Option Faul
   if specFail.isNone && fault.isSome && (fault.map (·.mode)) == some "error" && expectUpdate == "write" && o.updateErr != "write" then
     specFail := some "C15: a write error was not reported as a failed run"
   let badCheck := checks.find? (!·.ok)
+  let allClauses := specFail.toList ++ (checks.filter (fun c => !c.ok && c.clause.startsWith "C")).map (·.clause)
   let specClause := match specFail with
     | some c => c
     | none => match badCheck with
@@ -486,7 +498,7 @@ def replayRun (tz : Int) (files : List FileJ) (strat : Nat) (fault : Option Faul
            detail := Json.mkObj [("generated", toJson generatedAliases), ("detail", match badCheck with | some b => b.detail | none => Json.null),
                                  ("modelPlan", toJson (mp.map (·.1))), ("implPlan", toJson (ip.map (·.1)))],
            feat := Json.mkObj [("entities", ents.length), ("extensions", nExt), ("updateErr", implUpdate), ("strat", strat)],
-           planned := planned, ok := implUpdate == "" }
+           planned := planned, ok := implUpdate == "", allClauses := allClauses }
 
 def ranksOf (j : Json) (k : String) : String → Nat :=
   match j.getObjVal? k with
@@ -504,6 +516,7 @@ def opPki : OpFn := fun view inp out => do
   let post : List PemJ ← out.getObjValAs? (List PemJ) "pems"
   let keys : List KeyJ ← out.getObjValAs? (List KeyJ) "keys"
   let v := replayRun tz files strat fault pre post (ranksOf out "ranksPre") keys o
-  pure { corr := v.corr, spec := v.spec || !viewAccepts view v.clause, clause := v.clause, nontrivial := !v.planned.isEmpty, branch := v.branch, model := v.detail, feat := v.feat }
+  let seen := v.allClauses.find? (viewAccepts view)
+  pure { corr := v.corr, spec := seen.isNone && (v.spec || !viewAccepts view v.clause), clause := seen.getD v.clause, nontrivial := !v.planned.isEmpty, branch := v.branch, model := v.detail, feat := v.feat }
 
 end Driver
